@@ -848,3 +848,123 @@ pub fn k_zip_count<'a>(p: &P<'a>) {
         .embedded_output("out0");
     p.embedded_input::<i64>("in0").embedded_output("out1");
 }
+
+// ---------------------------------------------------------------------------------------------
+// atomic regions: cross-tick-stateful operators applied inside `atomic() .. end_atomic()` at top
+// level (safe: the answers are those of the plain top-level program), and views that enter an
+// atomic / cross-tick context from inside a tick (`across_ticks`)
+// ---------------------------------------------------------------------------------------------
+
+/// atomic singleton / optional / keyed singleton -> one observation per slice (oracle: final value)
+macro_rules! obs_atomic {
+    ($x:expr, $name:expr) => {{
+        let __x = $x;
+        sliced! {
+            let s = use::atomic(__x, nondet!(/** terminal observation adapter: per-tick snapshot */));
+            s.into_stream()
+        }
+        .embedded_output($name)
+    }};
+}
+
+pub fn a_enumerate<'a>(p: &P<'a>) {
+    p.embedded_input::<i64>("in0").atomic().enumerate().end_atomic().embedded_output("out0");
+}
+
+pub fn a_scan_unique_limit<'a>(p: &P<'a>) {
+    let a = p.embedded_input::<i64>("in0").atomic();
+    a.clone()
+        .scan(
+            q!(|| 0i64),
+            q!(|acc, x| {
+                *acc += x;
+                Some(*acc)
+            }),
+        )
+        .end_atomic()
+        .embedded_output("out0");
+    a.clone().unique().end_atomic().embedded_output("out1");
+    a.limit(q!(3)).end_atomic().embedded_output("out2");
+}
+
+pub fn a_fold_count<'a>(p: &P<'a>) {
+    let a = p.embedded_input::<i64>("in0").atomic();
+    obs_atomic!(a.clone().count(), "out0");
+    obs_atomic!(a.clone().fold(q!(|| 0i64), q!(|acc, x| *acc = *acc * 2 + x)), "out1");
+    a.end_atomic().embedded_output("out2");
+}
+
+pub fn a_reduce_max_first<'a>(p: &P<'a>) {
+    let a = p.embedded_input::<i64>("in0").atomic();
+    obs_atomic!(a.clone().max(), "out0");
+    obs_atomic!(a.clone().first(), "out1");
+    obs_atomic!(a.reduce(q!(|acc, x| *acc = *acc * 2 + x)), "out2");
+}
+
+pub fn a_selfjoin<'a>(p: &P<'a>) {
+    let a = p.embedded_input::<(i64, i64)>("in0").atomic();
+    let j = a.clone().join(a.map(q!(|(k, v)| (k, v + 100))));
+    obs_bag(j.end_atomic(), "out0");
+}
+
+pub fn a_keyed<'a>(p: &P<'a>) {
+    let ks = p.embedded_input::<(i64, i64)>("in0").into_keyed().atomic();
+    obs_keyed(ks.clone().enumerate().end_atomic(), "out0");
+    obs_keyed(
+        ks.clone()
+            .scan(
+                q!(|| 0i64),
+                q!(|acc, v| {
+                    *acc += v;
+                    Some(*acc)
+                }),
+            )
+            .end_atomic(),
+        "out1",
+    );
+    obs_bag(ks.clone().first().end_atomic().entries(), "out2");
+    let f = ks.fold(q!(|| 0i64), q!(|acc, v| *acc = *acc * 2 + v));
+    sliced! {
+        let s = use::atomic(f, nondet!(/** terminal observation adapter: per-tick snapshot */));
+        s.entries()
+    }
+    .assume_ordering::<TotalOrder>(nondet!(/** terminal observation adapter: multiset per tick */))
+    .embedded_output("out3");
+}
+
+pub fn t_across_stream_ops<'a>(p: &P<'a>) {
+    let tick = p.tick();
+    let b = p.embedded_input::<i64>("in0").batch(&tick, nondet!(/** schedule */));
+    b.clone().across_ticks(|s| s.enumerate()).all_ticks().embedded_output("out0");
+    b.clone()
+        .across_ticks(|s| {
+            s.scan(
+                q!(|| 0i64),
+                q!(|acc, x| {
+                    *acc += x;
+                    Some(*acc)
+                }),
+            )
+        })
+        .all_ticks()
+        .embedded_output("out1");
+    b.clone().across_ticks(|s| s.unique()).all_ticks().embedded_output("out2");
+    b.across_ticks(|s| s.max()).all_ticks().embedded_output("out3");
+}
+
+pub fn t_across_keyed<'a>(p: &P<'a>) {
+    let tick = p.tick();
+    let b = p
+        .embedded_input::<(i64, i64)>("in0")
+        .batch(&tick, nondet!(/** schedule */))
+        .into_keyed();
+    b.clone()
+        .across_ticks(|s| s.enumerate().entries_partially_ordered(nondet!(/** observation: per-key order */)))
+        .all_ticks()
+        .embedded_output("out0");
+    b.across_ticks(|s| s.fold(q!(|| 0i64), q!(|acc, v| *acc = *acc * 2 + v)))
+        .entries()
+        .all_ticks()
+        .assume_ordering::<TotalOrder>(nondet!(/** observation: multiset per tick */))
+        .embedded_output("out1");
+}
